@@ -4,10 +4,10 @@ c = c
 Obj = {a, b, c}
 NULL = NULL
 ObjSeq <- ObjSeqDef
-FmtSel = {1, 2}
+FmtSel = {1, 2, 3, 5}
 RndSel = {1, 2}
 OvfSel = {1, 2}
-GridSel = {2, 4}
+GridSel = {2, 4, 6}
 Acts <- ActsC02
 Depth = 3
 EXT = 4
